@@ -20,17 +20,18 @@ SPEC = dict(
              "is also evaluated on the implementation's own observations.",
         note="Modelled, not verified: X.509 parsing (a certificate is the pair SubjectKeyId extension / subjectPublicKey bits as "
              "crypto/x509 parsed them), the TLS handshake (possession of the first certificate's key, version negotiation), "
-             "gorilla's upgrade and sub-protocol selection, SHA-1 (a parameter of every theorem; where anything is assumed of it, "
-             "only that it returns 20 bytes; the driver labels keys with crypto/sha1 digests). keepThisConnection (double "
+             "gorilla's upgrade and sub-protocol selection. SHA-1 is a parameter of every theorem (where anything is assumed of it, "
+             "only that it returns 20 bytes); the cases are evaluated with an executable SHA-1 written in Coq (Sha1.v, proved to "
+             "meet that assumption, FIPS test vectors) which is compared with crypto/sha1 on every key of every case. keepThisConnection (double "
              "connections) belongs to C05 and is not exercised: every session uses a fresh hub. Trusted: Coq kernel + vm_compute, "
              "the Go-AST translator, the certdrv driver. No axioms.",
         technique="Coq proof (case analysis over the decision sequences, algebraic laws of hex) + constants and statement order "
                   "regenerated from source + differential correspondence at unit and at session level",
         ref="DESIGN.md §6 C02"),
-    imports="From Ship Require Import Base Ski Cert.",
+    imports="From Ship Require Import Base Ski Sha1 Cert.",
     case_type="c02_case", check_fn="check_c02",
     drivers=[
-        dict(bin="certdrv", args=["-prop", "C02", "-mode", "unit"], n_quick=4000, n_thorough=80000),
+        dict(bin="certdrv", args=["-prop", "C02", "-mode", "unit"], n_quick=3200, n_thorough=60000),
         dict(bin="certdrv", args=["-prop", "C02", "-mode", "sys"], n_quick=140, n_thorough=3000, timeout=1200),
     ],
     codes={10: "accepted_below_tls12", 11: "accepted_without_subprotocol", 12: "accepted_without_certificate",
@@ -50,7 +51,7 @@ SPEC = dict(
          "session parameters); non-trivial = the (first) certificate carries a 20-byte SubjectKeyId, so that the outcome depends "
          "on the binding and on the comparison with the dialled SKI (generator and hex cases: always / non-empty input).",
     trusted=["crypto/x509 parsing, crypto/tls, gorilla/websocket: modelled (see Cert.v header), their behaviour is only sampled by the sessions",
-             "SHA-1 abstract: theorem parameter sha1 with sha1_spec (20 output bytes) where needed; cases carry crypto/sha1 digests of the keys they contain",
+             "SHA-1: theorem parameter sha1 with sha1_spec (20 output bytes) where needed; instance Sha1.sha1_impl (C02_executable_sha1_meets_spec) checked against the crypto/sha1 digest of every key in every case",
              "hub fakes (vh.FakeReader with AllowWaitingForTrust=true, vh.FakeMdns); hooks hub.VerifRegistry, hub.VerifSetStarted"],
     assumptions=["sha1_spec sha1 (forall x, length (sha1 x) = 20 and every element < 256) — hypothesis of the generator and monitor theorems, a theorem parameter, not an axiom",
                  "code_config / structure_ok: constants and statement order regenerated from hub/hub_connections.go, cert/cert.go, api/websocket.go",
